@@ -386,8 +386,27 @@ impl PromHow {
     }
 }
 
+/// How the COMPRESSED COPY of a point is rewritten by hand (the point itself stays; the fields are public)
+#[derive(Clone, Debug, Serialize, Deserialize, PartialEq, Eq, Hash)]
+pub enum CompHow {
+    /// one bit of the 32 bytes, bit 255 included
+    FlipBit(u8),
+    /// the encoding of another point
+    Fresh(u64),
+}
+#[derive(Clone, Debug, Serialize, Deserialize, PartialEq, Eq, Hash)]
+pub enum CompEdit {
+    Commitment { j: u16, how: CompHow },
+    H(CompHow),
+    G { k: u16, how: CompHow },
+    /// the list of compressed commitments as a whole: 0 => emptied, 1 => last entry dropped, 2 => last entry repeated, 3 => reversed
+    List(u8),
+}
+
 #[derive(Clone, Debug, Serialize, Deserialize, PartialEq, Eq, Hash)]
 pub enum StMut {
+    /// only the compressed copy that the statement / generator set carries next to a point (a statement edited by hand)
+    CompressedCopy(CompEdit),
     Commitment { j: u16, how: StPointHow },
     SwapCommitments(u16, u16),
     Promise { j: u16, how: PromHow },
@@ -415,6 +434,7 @@ pub fn st_mut() -> impl Strategy<Value = StMut> {
 impl StMut {
     pub fn kind(&self) -> String {
         match self {
+            StMut::CompressedCopy(e) => format!("compressed-copy:{:?}", e).split([' ', '(', '{']).next().unwrap().to_string(),
             StMut::Commitment { how, .. } => format!("commitment:{:?}", how).split('(').next().unwrap().to_string(),
             StMut::SwapCommitments(..) => "swap-commitments".into(),
             StMut::Promise { how, .. } => format!("promise:{:?}", how).split('(').next().unwrap().to_string(),
@@ -437,6 +457,8 @@ pub struct PubStatement<E: Engine> {
     pub commitments: Vec<E::P>,
     pub promises: Vec<Option<u64>>,
     pub ctx: CtxSpec,
+    /// edit of a compressed copy, applied by `statement()` after the validating constructors have run
+    pub comp: Option<CompEdit>,
 }
 
 pub enum Applied {
@@ -459,6 +481,7 @@ impl<E: Engine> Clone for PubStatement<E> {
             commitments: self.commitments.clone(),
             promises: self.promises.clone(),
             ctx: self.ctx.clone(),
+            comp: self.comp.clone(),
         }
     }
 }
@@ -474,11 +497,23 @@ impl<E: Engine> PubStatement<E> {
             commitments: t.commitments.clone(),
             promises: t.promises.clone(),
             ctx: t.spec.ctx.clone(),
+            comp: None,
         }
     }
 
     pub fn apply(&mut self, m: &StMut) -> Applied {
         match m {
+            StMut::CompressedCopy(e) => {
+                if let CompEdit::List(3) = e {
+                    let mut r = self.commitments.clone();
+                    r.reverse();
+                    if r == self.commitments {
+                        return Applied::Noop;
+                    }
+                }
+                self.comp = Some(e.clone());
+                Applied::Changed
+            },
             StMut::Commitment { j, how } => {
                 let j = pick(*j, self.commitments.len());
                 let new = how.apply(&self.commitments[j], &self.h, &self.g[0]);
@@ -570,14 +605,52 @@ impl<E: Engine> PubStatement<E> {
 
     /// Build the library statement through the validating constructors.
     pub fn statement(&self, seed: Option<Scalar>) -> Result<RangeStatement<E::P>, String> {
+        use tari_bulletproofs_plus::traits::FixedBytesRepr;
+        fn rewrite<C: FixedBytesRepr, P: Grp + Compressable<Compressed = C>>(c: &C, how: &CompHow) -> C {
+            match how {
+                CompHow::FlipBit(b) => {
+                    let mut bytes = *c.as_fixed_bytes();
+                    bytes[*b as usize / 8] ^= 1 << (*b % 8);
+                    C::from_fixed_bytes(bytes)
+                },
+                CompHow::Fresh(x) => fresh_point::<P>(*x ^ 0xc0de).compress(),
+            }
+        }
         let (rh, rg) = <E::P as Grp>::pedersen(self.ext);
-        let params = if rh == self.h && rg == self.g {
+        let gens_edit = matches!(self.comp, Some(CompEdit::H(_)) | Some(CompEdit::G { .. }));
+        let params = if rh == self.h && rg == self.g && !gens_edit {
             E::params(self.bits, self.cap, self.ext)
         } else {
-            RangeParameters::init(self.bits, self.cap, self.pedersen())
+            let mut pc = self.pedersen();
+            match &self.comp {
+                Some(CompEdit::H(how)) => pc.h_base_compressed = rewrite::<_, E::P>(&pc.h_base_compressed, how),
+                Some(CompEdit::G { k, how }) => {
+                    let k = pick(*k, pc.g_base_compressed_vec.len());
+                    pc.g_base_compressed_vec[k] = rewrite::<_, E::P>(&pc.g_base_compressed_vec[k], how);
+                },
+                _ => {},
+            }
+            RangeParameters::init(self.bits, self.cap, pc)
         }
         .map_err(|e| format!("params: {:?}", e))?;
-        RangeStatement::init(params, self.commitments.clone(), self.promises.clone(), seed).map_err(|e| format!("statement: {:?}", e))
+        let mut st = RangeStatement::init(params, self.commitments.clone(), self.promises.clone(), seed).map_err(|e| format!("statement: {:?}", e))?;
+        match &self.comp {
+            Some(CompEdit::Commitment { j, how }) => {
+                let j = pick(*j, st.commitments_compressed.len());
+                st.commitments_compressed[j] = rewrite::<_, E::P>(&st.commitments_compressed[j], how);
+            },
+            Some(CompEdit::List(0)) => st.commitments_compressed.clear(),
+            Some(CompEdit::List(1)) => {
+                st.commitments_compressed.pop();
+            },
+            Some(CompEdit::List(2)) => {
+                let last = *st.commitments_compressed.last().expect("at least one commitment");
+                st.commitments_compressed.push(last);
+            },
+            Some(CompEdit::List(_)) => st.commitments_compressed.reverse(),
+            _ => {},
+        }
+        Ok(st)
     }
 
     pub fn ref_stmt(&self) -> Stmt<E::P> {
